@@ -13,7 +13,7 @@ for p in $(python3 -c "import json;print(' '.join(c['property_id'] for c in json
   echo "$out"
   echo "$out" | grep -q "OK:" || rc=1
 done
-# evidence written by these runs describes the variant tree, not /repo: refresh it
+
 git -C /repo worktree remove --force $WT
-echo "benign variants: rc=$rc  (re-run tools/run_all.sh to refresh evidence for /repo)"
+echo "benign variants: rc=$rc"
 exit $rc
